@@ -3,6 +3,7 @@
 spec/store/Durable.tla       persistence model + durability rule (monitor, evaluated at every crash point)
 spec/store/DurableImpl.tla   implementation-shaped model of set -> update_file(use_fsync) -> _write_file
 spec/store/DurableTrace.tla  validation of system-call logs recorded from a real process
+spec/store/DurableConc.tla   concurrent setters: update_file's critical section, write jobs on the executor, refused writes
 
 1. TLC checks DurableImpl.tla (buffered write, flush, fsync, close) against the rule for sequences of sets.
 2. A real process performs sequences of sets under `strace -f`; the system calls on the store directory
@@ -32,7 +33,15 @@ PROGRAMS = [
     [("d/e/f", "v3"), ("a", "v2"), ("d/e/f", "v1")],
     [("a", "big"), ("b", "v1"), ("a", "v1")],
 ]
+# (group members use strings and lists only: klong["v1"] hands Python an int whose serialisation differs from the Klong value's)
+# concurrent setters (beyond the sequential quantifier of C17; see spec/store/DurableConc.tla): ["||", [key, value], ...]
+PROGRAMS += [
+    [("a", "v1"), ["||", ["a", "big"], ["a", "v2"]], ("b", "v3")],
+    [["||", ["c", "big"], ["c", "v3"], ["c", "v2"]], ["||", ["c", "v2"], ["c", "big"]]],
+]
 PROGRAMS_THOROUGH = PROGRAMS + [
+    [["||", ["a", "big"], ["a", "v3"]], ("a", "v1"), ["||", ["a", "v3"], ["a", "big"], ["a", "v2"]]],
+    [("p/q", "v2"), ["||", ["p/q", "big"], ["p/q", "v3"]], ["||", ["p/q", "v3"], ["p/q", "big"]], ["||", ["p/q", "big"], ["p/q", "v2"]]],
     [("a", "v3"), ("b", "big"), ("b", "v2"), ("a", "big")],
     [("x/y", "v1"), ("x/z", "v2"), ("x/y", "big"), ("x/z", "v3")],
     [("a", "v1"), ("a", "v1"), ("a", "v2"), ("b", "v2")],
@@ -72,6 +81,18 @@ def record(prog, vbytes):
         if e["ev"] == "mark":
             if e["kind"] == "end":
                 continue
+            if e["kind"] in ("gbegin", "greturn"):
+                members = prog[e["i"]][1:]
+                key = members[0][0]
+                if e["kind"] == "gbegin":
+                    out.append({"ev": "gbegin", "key": key})
+                else:
+                    which = int(e["extra"][0])       # which member's value the live store shows after all have returned
+                    if which == 0:
+                        raise MachineryError(f"after the concurrent sets {members} the live store shows none of their values")
+                    vid = names.index(members[which - 1][1]) + 1
+                    out.append({"ev": "greturn", "key": key, "v": vid, "size": len(vbytes[vid - 1][1])})
+                continue
             key, val = prog[e["i"]]
             if e["kind"] == "begin":
                 vid = names.index(val) + 1
@@ -80,7 +101,7 @@ def record(prog, vbytes):
                 out.append({"ev": "return", "key": key})
         else:
             out.append(e)
-    keys = sorted({k for k, _ in prog} | set(paths))
+    keys = sorted({(it[1][0] if it[0] == "||" else it[0]) for it in prog} | set(paths))
     return out, keys, notes
 
 
@@ -159,7 +180,7 @@ def run(tier, seed):
     ev = Evidence(PROP, tier, seed, level="fault_enumeration")
     vd = Verdicts(PROP, ev)
     thorough = tier == "thorough"
-    d = stage_spec("store/Durable.tla", "store/DurableTrace.tla", "store/DurableImpl.tla")
+    d = stage_spec("store/Durable.tla", "store/DurableTrace.tla", "store/DurableImpl.tla", "store/DurableConc.tla")
 
     # 1. design level
     with open(os.path.join(d, "MCDur.tla"), "w") as f:
@@ -198,6 +219,40 @@ INVARIANT Good
     ev.cov["negative_control_no_flush_violates"] = rn.violated
     if not rn.violated:
         raise MachineryError("negative control: the model without flush-before-fsync does not violate the rule")
+
+    # 1b. concurrent setters: the code as it is (a refused write is dropped) and a correct retry satisfy the rule and
+    # every setter returns; a retry that forgets use_fsync does not (negative control)
+    with open(os.path.join(d, "MCConc.tla"), "w") as f:
+        f.write('''---- MODULE MCConc ----
+EXTENDS DurableConc
+MCSize == (1 :> 2) @@ (2 :> 3) @@ (3 :> 9)
+MCSetters == <<[key |-> "a", v |-> 1], [key |-> "a", v |-> 2], [key |-> "b", v |-> 3], [key |-> "a", v |-> 3]>>
+====
+''')
+    for retry in ("none", "fsync", "nofsync"):
+        cfgc = os.path.join(d, f"MCConc_{retry}.cfg")
+        with open(cfgc, "w") as f:
+            f.write(f'''SPECIFICATION Spec
+CONSTANTS
+  Keys = {{"a", "b"}}
+  Vals = {{1, 2, 3}}
+  SizeOf <- MCSize
+  Setters <- MCSetters
+  Retry = "{retry}"
+INVARIANT Good
+INVARIANT OneWriterPerFile
+PROPERTY AllReturn
+''')
+        rc = run_tlc(os.path.join(d, "MCConc.tla"), cfgc, workers=8, timeout=900)
+        if retry == "nofsync":
+            ev.cov["negative_control_retry_without_fsync_violates"] = rc.violated
+            if not rc.violated:
+                raise MachineryError("negative control: a retry that forgets use_fsync does not violate the rule")
+            continue
+        ev.add_tlc(f"DurableConc.tla (four concurrent setters, three on one key; refused write: {retry})", rc,
+                   "invariants Good (group durability at every crash point), OneWriterPerFile; liveness AllReturn")
+        if rc.violated:
+            vd.violation({"what": f"design-level: DurableConc.tla (Retry={retry}) violates {rc.violated}", "counterexample": rc.cex[:6000]})
 
     # 2. real process under strace
     vbytes, k = stored_bytes()
@@ -249,7 +304,9 @@ INVARIANT Good
     ev.assumptions += ["fsync(fd) makes the file's data and its directory entry (and directories created for it) durable",
                        "a crash loses any subset of unsynced state per file: durable content, any kernel state since the last "
                        "fsync, any byte prefix of an unsynced write",
-                       "strace reports system calls in completion order; sets are sequential"]
+                       "strace reports system calls in completion order",
+                       "concurrent sets on one key (an extension beyond C17's sequential quantifier) are judged as a group: when "
+                       "all have returned, the value the live store shows must be durable"]
     return vd.finish()
 
 
